@@ -9,6 +9,7 @@ import (
 	"fmt"
 	"math"
 	"os"
+	"runtime"
 	"runtime/debug"
 	"strconv"
 	"testing"
@@ -242,3 +243,28 @@ func TempDir() string {
 	}
 	return d
 }
+
+// Par runs the functions as concurrent threads and waits for all of them. Under the symbolic
+// executor every interleaving of their visible operations (atomics, mutex operations) is explored.
+func Par(fs ...func()) {
+	done := make(chan interface{}, len(fs))
+	for _, f := range fs {
+		go func(f func()) {
+			defer func() { done <- recover() }()
+			f()
+		}(f)
+	}
+	var first interface{}
+	for range fs {
+		if r := <-done; r != nil && first == nil {
+			first = r
+		}
+	}
+	if first != nil {
+		panic(first)
+	}
+}
+
+// Yield is a scheduling point without effect: under the symbolic executor any other thread of an
+// enclosing Par may run here.
+func Yield() { runtime.Gosched() }
